@@ -35,6 +35,31 @@ theorem parse_print_at (e : E) (hw : wf e = true) (hr : relChain e = false) (hn 
     ∃ n0, ∀ n, n0 ≤ n → parseAt lvl n (pr lvl true e ++ rest) = some (e, rest) :=
   (main1 e hw hr hn).1 lvl h15 h2 rest hs
 
+/-- ROUND TRIP (full ES5 §11 expression grammar): as `parse_print_partial`, now including member access (`.name`, `[e]`),
+    calls with argument lists, and `new` with and without arguments in every chaining the grammar allows
+    (MemberExpression / NewExpression / CallExpression, §11.2).  The only hypotheses: the tree is a well-formed expression
+    tree and lies outside the deviation region `relational_chain`. -/
+theorem parse_print (e : E) (hw : wf e = true) (he : isExprHead e = true) (hr : relChain e = false) :
+    ∃ n0, ∀ n, n0 ≤ n → parseExpression n true (print e ++ [eofTok]) = some (e, [eofTok]) := by
+  have rt := ((main2 e hw hr).1 he).1 0 (by omega) (by omega) [eofTok] (show stopB 0 .eof false = true by decide)
+  simpa [Ev, parseAt_0, pr_bare (Nat.zero_le 15) (Nat.zero_le _), print] using rt
+
+/-- … at every grammar position and in front of any admissible rest (cf. `parse_print_at`). -/
+theorem parse_print_at_full (e : E) (hw : wf e = true) (he : isExprHead e = true) (hr : relChain e = false)
+    (lvl : Nat) (h15 : lvl ≤ 15) (h2 : lvl ≠ 2) (rest : List Tok) (hs : stop lvl rest) :
+    ∃ n0, ∀ n, n0 ≤ n → parseAt lvl n (pr lvl true e ++ rest) = some (e, rest) :=
+  ((main2 e hw hr).1 he).1 lvl h15 h2 rest hs
+
+/-- argument lists: `parseArgumentList`'s loop returns exactly the list the grammar derived and stops at `)` -/
+theorem parse_print_args (a : E) (hw : wf a = true) (ha : isArgs a = true) (hr : relChain a = false) (R : List Tok) :
+    ∃ n0, ∀ n, n0 ≤ n → parseArgs n (bare a true ++ tk .rparen :: R) = some (a, tk .rparen :: R) :=
+  (main2 a hw hr).2 ha R
+
+/-- non-vacuity: member/call/new chains mixed with operators -/
+example : let e : E := .asg .assign (.dot (.call (.new_ (.dot (.id "a") "b") (.acons (.num "1") (.acons (.bin .add (.id "x") (.id "y")) .anil))) .anil) "c")
+                          (.bin .mul (.new_ (.new_ (.id "F") .noargs) .noargs) (.idx (.call (.id "f") (.acons (.bin .comma (.id "p") (.id "q")) .anil)) (.bin .in_ (.str "'k'") (.id "o"))))
+    wf e = true ∧ isExprHead e = true ∧ relChain e = false := by decide
+
 /-- non-vacuity: a tree mixing every operator class satisfies the hypotheses -/
 example : let e : E := .asg .add (.id "a") (.cond (.bin .lor (.id "b") (.un .typeof (.post true (.id "c"))))
                           (.bin .comma (.num "1") (.bin .lt (.id "d") (.bin .add (.num "2") (.bin .mul (.id "x") (.id "y"))))) (.un .neg (.id "z")))
